@@ -246,6 +246,19 @@ def c04g(prog, R, rid="C04.g"):
                         got = {o.extra.sres for o in origins(cf, st["rv"]["ops"][idx]) if o.kind == "call"}
                         lit = bool(got) and got <= set(FRESH)
             ok = lit or (bool(sb) and must_pass(cf, sb) and bool(srcs) and srcs <= set(FRESH))
+            # Version::new takes the id from its caller: it has to be the id of the closure's parameter (the version current at
+            # commit) plus one - any other id (e.g. the cleared version's own) rewrites a live version file in place
+            for nc in [c_ for c_ in cf.calls if c_.sres == "version::Version::new"]:
+                okid = False
+                for o in origins(cf, nc.args[0]):
+                    if o.kind == "bin" and str(o.what).startswith("Add"):
+                        ops_ = (o.extra["a"], o.extra["b"])
+                        one = any(x.get("o") == "const" and str(x.get("v")) == "1" for x in ops_)
+                        cur = any(oo.kind == "call" and oo.extra.sres == "version::Version::id" and
+                                  any(p_.kind == "param" and p_.what == 2 for p_ in origins(cf, oo.extra.args[0]))
+                                  for x in ops_ for oo in origins(cf, x))
+                        okid = okid or (one and cur)
+                ok = ok and okid
             r.check(ok, "%s|the returned entry's version comes from a with_* / new constructor on every success path" % cb,
                     "a transition can return an entry whose version (and version id) is the current one: the history gets two entries "
                     "with the same id, the version file is rewritten in place and later unlinked by the version GC while `current` "
